@@ -22,6 +22,12 @@ Lines (trees in the encoding of `Driver/Tree.lean`):
   `xP=<path>` flips a file's executable bit on P. Answer: one
   `<outcome>:<P tree>:<N tree>` per cycle, joined by ` | `; the history stops
   at the first cycle that does not complete.
+* `r <A> <alpha> <beta>` → `ReifyPhantomDirectories`: `<alpha'> <beta'> <alpha directories> <beta directories>`.
+* `cd …` / `sd …` → as `c` / `s`, in a session with Docker-style ignore syntax:
+  the contents may hold phantom directories, which are reified first.
+* `hd <mode> <N is alpha> <n|b> <paths> <A> <P> <N> <ops>` → as `h` with Docker-style
+  ignore syntax; every scan of N (`n`) or of both endpoints (`b`) reports the
+  directories at the comma-separated `paths` as phantom directories.
 -/
 
 /-- Replace the scalar fields of the file at `path` (no-op unless a file). -/
@@ -47,26 +53,53 @@ def parseOp (s : String) : Option Op :=
   | ["xP", p] => do pure (.chmodP (← parsePath p))
   | _ => none
 
-def history (mode : Mode) (nAlpha : Bool) : Nat → Option Entry → Option Entry → Option Entry → List Op → List String
+def history (mode : Mode) (nAlpha : Bool) (docker : Bool := false) (both : Bool := false) (phantom : List Path := []) :
+    Nat → Option Entry → Option Entry → Option Entry → List Op → List String
   | _, _, _, _, [] => []
   | fuel, a, p, n, op :: ops =>
     let (p, n) := match op with
       | .editN path d => (p, editFile n path fun q => { q with digest := d })
       | .editP path d => (editFile p path fun q => { q with digest := d }, n)
       | .chmodP path => (editFile p path fun q => { q with executable := !q.executable }, n)
-    let sp : Scan := { content := p, preserves := true }
-    let sn : Scan := { content := n, preserves := false }
+    let sp : Scan := { content := if docker && both then phantomize p phantom else p, preserves := true }
+    let sn : Scan := { content := if docker then phantomize n phantom else n, preserves := false }
     let (α, β) := if nAlpha then (sn, sp) else (sp, sn)
-    let (_, r, α', β') := sessionCycle mode true a α β
+    let (_, r, α', β') := sessionCycle mode true a α β docker (some (if nAlpha then (n, p) else (p, n)))
     let (p', n') := if nAlpha then (β', α') else (α', β')
     let item := showOutcome r.outcome ++ ":" ++ showOEntry p' ++ ":" ++ showOEntry n'
     match r.outcome, fuel with
-    | .completed, fuel + 1 => item :: history mode nAlpha fuel r.ancestor p' n' ops
+    | .completed, fuel + 1 => item :: history mode nAlpha docker both phantom fuel r.ancestor p' n' ops
     | _, _ => [item]
 
 def run : List String → Option String
   | ["p", a, s, t] => do
     pure (showOEntry (propagateExecutability (← parseOEntry a) (← parseOEntry s) (← parseOEntry t)))
+  | ["r", a, al, be] => do
+    let r := reifyPhantomDirectories (← parseOEntry a) (← parseOEntry al) (← parseOEntry be)
+    pure (showOEntry r.1 ++ " " ++ showOEntry r.2.1 ++ " " ++ toString r.2.2.1 ++ " " ++ toString r.2.2.2)
+  | ["cd", m, perm, pa, pb, a, al, be] => do
+    let mode ← parseMode m
+    let α : Scan := { content := ← parseOEntry al, preserves := ← parseFlag pa }
+    let β : Scan := { content := ← parseOEntry be, preserves := ← parseFlag pb }
+    let a ← parseOEntry a
+    let s := reifyStep true a α β
+    let eps := worldEndpoints s.1.content s.2.content false false
+    let r := cycle mode (← parseFlag perm) eps a s.1 s.2
+    let (α', β') := worldAfter s.1.content s.2.content false false r.events
+    pure (showOEntry r.alphaContent ++ " " ++ showOEntry r.betaContent ++ " " ++ showOutcome r.outcome ++ " " ++
+      showPlan r.plan ++ " anc=" ++ showOEntry r.ancestor ++ " alpha=" ++ showOEntry α' ++ " beta=" ++ showOEntry β')
+  | ["sd", m, perm, pa, pb, a, al, be] => do
+    let mode ← parseMode m
+    let α : Scan := { content := ← parseOEntry al, preserves := ← parseFlag pa }
+    let β : Scan := { content := ← parseOEntry be, preserves := ← parseFlag pb }
+    pure (sessionCycle mode (← parseFlag perm) (← parseOEntry a) α β true).1
+  | ["hd", m, na, sides, paths, a, p, n, ops] => do
+    let mode ← parseMode m
+    let ops ← (listField ops).mapM parseOp
+    let phantom ← (listField paths).mapM parsePath
+    let both ← if sides == "b" then some true else if sides == "n" then some false else none
+    pure (" | ".intercalate (history mode (← parseFlag na) true both phantom ops.length (← parseOEntry a)
+      (← parseOEntry p) (← parseOEntry n) ops))
   | ["c", m, perm, pa, pb, a, al, be] => do
     let mode ← parseMode m
     let α : Scan := { content := ← parseOEntry al, preserves := ← parseFlag pa }
@@ -85,7 +118,7 @@ def run : List String → Option String
   | ["h", m, na, a, p, n, ops] => do
     let mode ← parseMode m
     let ops ← (listField ops).mapM parseOp
-    pure (" | ".intercalate (history mode (← parseFlag na) ops.length (← parseOEntry a) (← parseOEntry p) (← parseOEntry n) ops))
+    pure (" | ".intercalate (history mode (← parseFlag na) false false [] ops.length (← parseOEntry a) (← parseOEntry p) (← parseOEntry n) ops))
   | _ => none
 
 def handle (line : String) : String :=
